@@ -1170,7 +1170,7 @@ def inherited_batch(rep, rng, n):
             return t % ((v,) * t.count("%s"))
         pre = rng.choice(["", "lo", "up", "both", "both"])
         touches = ([touch("lo")] if pre in ("lo", "both") else []) + ([touch("up")] if pre in ("up", "both") else [])
-        src = "local lo = {%s}, up = {%s}; local seen = [%s]; if std.length(seen) >= 0 then lo + up" % (lower, upper, ", ".join(touches))
+        src = "local lo = {%s}, up = {%s}; local seen = [%s]; if std.length(std.toString(seen)) >= 0 then lo + up" % (lower, upper, ", ".join(touches))
         exp = Obj([(not vis, nm, fv) for nm, fv, (lo, up, vis) in plan])
         jobs.append((src, exp, pre))
     outs = vlib.impl([vlib.eval_line(src) for src, _, _ in jobs])
